@@ -177,9 +177,9 @@ def execute(plan, prop, out, tr):
         """matrix(result) computed from the result's storage values vs the reference operation."""
         got = to_mat(fam, npd(res))
         err = np.abs(got - want).max()
-        if drift:
-            # Inv rotates the translation with the un-renormalised quaternion: the accumulated norm drift enters once
-            scale = scale * (1 + 0.1 * n_upd)
+        # pypose rotates translations with the un-renormalised quaternion, the reference with the normalised one: the
+        # accumulated norm drift (~ eps per update) enters every operation a little, Inv fully
+        scale = scale * (1 + (0.1 if drift else 0.01) * n_upd)
         if not err <= C_LOC * eps * max(scale, 1.0):
             raise Violation("C03.homomorphism", "op #%d %s: matrix of the result differs from the reference matrix "
                             "operation by %.3e (allowed %.3e; %s %s)" % (i, what, err, C_LOC * eps * max(scale, 1.0), fam,
